@@ -7,7 +7,10 @@ type C18Case struct {
 	Steps            []string `json:"steps"`            // dispense | call | h2p (plugin accepts, host dials) | p2h (host accepts, plugin dials) | stdio
 	ExitMs           int      `json:"exitMs"`           // plugin cleanup duration after the shutdown request
 	KillRacesAccepts bool     `json:"killRacesAccepts"` // (gRPC, no mux) eight host goroutines keep calling broker.Accept(NextId()) while Kill runs
-	KeepConns        bool     `json:"keepConns"`        // brokered connections the host dialled are still open when Kill is called
+	KeepConns        bool     `json:"keepConns"`
+	// TestMode: "" | noconnect | connect. An in-process test-mode server (ServeTestConfig) of this protocol
+	// whose context is cancelled after no host ever connected / after one reattached client used it
+	TestMode string `json:"testMode,omitempty"` // brokered connections the host dialled are still open when Kill is called
 }
 
 type C18Obs struct {
@@ -24,4 +27,5 @@ type C18Obs struct {
 	GoSample      string   `json:"goSample"`
 	TotalBefore   int      `json:"totalBefore"`
 	TotalAfter    int      `json:"totalAfter"`
+	CloseChMs     int64    `json:"closeChMs,omitempty"` // test mode: CloseCh closed this long after the cancel (-1: not within 40 s)
 }
